@@ -6,7 +6,7 @@ use crate::model::calendar as cal;
 use crate::model::instant::*;
 use super::diff::*;
 use astrolabe::{DateTime, DateUtilities, Offset, OffsetUtilities, Time, TimeUtilities};
-use serde_json::json;
+use serde_json::{json, Value};
 use std::time::Duration;
 
 pub const METHODS: [(&str, i128, i128); 14] = [
@@ -276,7 +276,7 @@ pub fn run(ctx: &Ctx) -> PropResult {
                 (MIN_INSTANT + rng.range_i128(0, span), (rng.below(86_400) as i32) * (rng.below(2) as i32))
             }
         } else {
-            (gen_instant(rng, 2).0, gen_offset(rng))
+            (gen_instant(rng, 2).0, gen_offset_any(rng))
         };
         let (c, stratum) = gen_count(rng, i, unit, dir);
         judge_method(rec, i, off, m, c, stratum);
@@ -291,7 +291,7 @@ pub fn run(ctx: &Ctx) -> PropResult {
         } else if rng.chance(1, 8) {
             (gen_instant(rng, 0).0, 0)
         } else {
-            (gen_instant(rng, 2).0, gen_offset(rng))
+            (gen_instant(rng, 2).0, gen_offset_any(rng))
         };
         let (d, stratum) = gen_duration(rng, i, dir);
         judge_duration(rec, i, off, dir, d, stratum, idx % 8 >= 6);
@@ -303,7 +303,7 @@ pub fn run(ctx: &Ctx) -> PropResult {
                 // within one day of the range end the operation moves towards, offset 0
                 (if dir < 0 { MIN_INSTANT + rng.range_i128(0, D) } else { MAX_INSTANT - rng.range_i128(0, D) }, 0)
             }
-            _ => (gen_instant(rng, 2).0, gen_offset(rng)),
+            _ => (gen_instant(rng, 2).0, gen_offset_any(rng)),
         };
         let tod = i.rem_euclid(D);
         let tn = match rng.below(4) {
@@ -318,7 +318,7 @@ pub fn run(ctx: &Ctx) -> PropResult {
         if (dir > 0 && tod + tn as i128 == D) || (dir < 0 && tod == tn as i128) {
             rec.bin("time-op/lands-exactly-on-midnight");
         }
-        judge_time_op(rec, i, off, dir, tn, gen_offset(rng), idx % 8 >= 6);
+        judge_time_op(rec, i, off, dir, tn, gen_offset_any(rng), idx % 8 >= 6);
     }));
     wls.push(Workload::cases("date_ops", ctx.count(120_000, 4_000_000), |rec, idx, rng| {
         let day = match rng.below(4) {
@@ -335,6 +335,36 @@ pub fn run(ctx: &Ctx) -> PropResult {
     }));
     // call sequences: one operation on a value, on siblings of it (same time another day, 2^j units away, …) and on the
     // value again; and several counts on one value in a row
+    // receivers whose local reading lies beyond a range end (outward offset): moving them further inside or by zero
+    // must work on the UTC instant like for any other value; moving them outside must panic
+    wls.push(Workload::cases("receivers_with_an_out_of_range_local_reading", ctx.count(10_000, 300_000), |rec, idx, rng| {
+        rec.eval();
+        let Some((a, i, off, high)) = outward_value(rng) else {
+            rec.bin("outward/could-not-build(other-property)");
+            return;
+        };
+        rec.bin("outward/local-reading-beyond-the-range-end");
+        let m = (idx % 14) as usize;
+        let (name, unit, dir) = METHODS[m];
+        let inward = (dir < 0) == high;
+        let c: u32 = if inward { match rng.below(3) { 0 => 0, 1 => rng.below(100) as u32, _ => rng.below(1 << 20) as u32 } } else { *rng.pick(&[0u32, 0, 1]) };
+        let target = i + dir * unit * c as i128;
+        rec.api(name);
+        rec.nontrivial(hash_i128s(&[i, off as i128, m as i128, c as i128, 0x0404]));
+        let r = trap(|| apply_method(&a, m, c));
+        let wit = |obs: Value| json!({"receiver_utc": show(i), "offset": off, "note": "local reading beyond the range end", "call": format!("{}({})", name, c), "model_result_utc": if representable(target) { show(target) } else { "unrepresentable".into() }, "observed": obs});
+        match (r, representable(target)) {
+            (Ok(res), true) => {
+                let ok = trap(|| read(&res) == target && res.get_offset() == Offset::Fixed(off) && res.timestamp() == (target.div_euclid(NS) - cal::DAYS_TO_1970 as i128 * 86_400) as i64).unwrap_or(false);
+                if !ok {
+                    rec.violation(format!("C04|outward-receiver|{}|wrong-instant-or-offset", name), || wit(json!(trap(|| utc_reads(&res)).unwrap_or_default())));
+                }
+            }
+            (Err(p), true) => rec.violation(format!("C04|outward-receiver|{}|panic-when-representable|{},{}", name, p.class, p.site()), || wit(p.to_json())),
+            (Ok(res), false) => rec.violation(format!("C04|outward-receiver|{}|returned-when-unrepresentable", name), || wit(json!(trap(|| utc_reads(&res)).unwrap_or_default()))),
+            (Err(_), false) => {}
+        }
+    }));
     wls.push(Workload::cases("sibling_call_sequences", ctx.count(40_000, 1_500_000), |rec, idx, rng| {
         let (lo, hi) = (MIN_INSTANT + 3 * D, MAX_INSTANT - 3 * D);
         let i = gen_instant(rng, 3).0;
@@ -358,6 +388,7 @@ pub fn run(ctx: &Ctx) -> PropResult {
     let mut meta = PropMeta::default();
     meta.rule = "instant (10 strata incl. 2^k·unit from 0001-01-01 / 1970-01-01 and the seconds at the range ends, all eras, two-day margin when an offset is attached) x offset (whole ±86399 s) x method (14 add_/sub_ methods round-robin) x count from {0..100, u32::MAX−0..2, 2^31±1, the counts at which count·unit crosses 2^63/2^64 ns ±2, the one-day-wide band of counts below 2^31/2^32/2^63/2^64 ns ÷ unit (a time of day is added to the product afterwards), the model-computed last representable count −1..+2, <2^20, uniform u32}; Durations {sub-day, multi-day, 2^32 days+ε, u64::MAX s, at the representability edge ±{1 ns,1 s,1 d} (also from the first/last second of the range: a Duration spanning the whole range), magic magnitudes 2^k·unit ± jitter built with Duration::new, wide}; DateTime ± Time (incl. amounts that land the result exactly on a midnight ± 1 ns); random API walks of 4–14 steps in which arithmetic steps are judged and set_*/clear/month/offset steps only move the state, every step observed through nanos_since, timestamp()+nano(), all getters and as_ymdhms; Date add/sub_days and ± Duration (whole days). Oracle: i128 instant arithmetic — representable ⇒ exact instant, same offset, day-nanoseconds < 24 h; not representable ⇒ the call must panic (any panic). Non-trivial = count > 100, BC start, era crossing or unrepresentable target (methods); every operator case. Distinct by input hash. Offset::Local twins: the same arithmetic step on the value carrying Offset::Local (system zone hooked to resolve to o; synthetic fixed zones and real zones with transitions) and on its Offset::Fixed(o) twin gives the same read-outs.".into();
     meta.required_bins = vec![
+        "outward/local-reading-beyond-the-range-end",
         "date-walk/with-judged-steps",
         "sequence/sibling-calls",
         "local-twin/judged", "local-twin/synthetic-fixed-zone", "local-twin/real-zone-with-transitions",
